@@ -42,3 +42,20 @@ Definition foreign_exc_remainder : list (string * string) := [
   ("kmip/services/server/session.py", "KmipSession.authenticate");
   ("kmip/services/server/session.py", "KmipSession.authenticate")
 ].
+
+(* Known finding C20-decoder-field-echo: the TTLV decoder's diagnostics echo the tag / type / length /
+   padding / Boolean field they could not accept (at most 8 bytes of the request, as a number).  For a
+   malformed or mis-framed request these bytes are whatever the client sent at that position - possibly
+   bytes of a key.  The text reaches the ERROR log through `logger.exception(e)` at session.py
+   "Failure parsing request message" (never the client).  The sites, pinned (file, function), in order: *)
+Definition wire_echo_sites : list (string * string) := [
+  ("kmip/core/primitives.py", "Base.read_tag");
+  ("kmip/core/primitives.py", "Base.read_type");
+  ("kmip/core/primitives.py", "Integer.read_value");
+  ("kmip/core/primitives.py", "Integer.read_value");
+  ("kmip/core/primitives.py", "LongInteger.read");
+  ("kmip/core/primitives.py", "BigInteger.read");
+  ("kmip/core/primitives.py", "Boolean.read_value");
+  ("kmip/core/primitives.py", "TextString.read_value");
+  ("kmip/core/primitives.py", "ByteString.read_value")
+].
